@@ -28,6 +28,8 @@ FIELD_KEYS = ['memo', 'type', 'code', 'vendor']
 FIELD_VALUES = ['', '  ', 'ACH-OUT-123', 'WIRE', 'Invoice REF:77', 'PROJ:alpha', 'memo text', ' padded ', 'COST-CO']
 SOURCES = ['Amex', 'Chase', 'alice-amex', 'BANK']
 LOCATIONS = ['Seattle, WA', 'CA', 'NY']
+CASE_VARIANTS_S = [v.lower() for v in SOURCES] + [v.upper() for v in SOURCES if v.upper() != v]
+CASE_VARIANTS_F = sorted({f(v) for v in FIELD_VALUES for f in (str.lower, str.swapcase) if v.strip() and f(v) != v})
 ROW_ITEMS = ['Book', 'USB Cable', 'coffee beans', 'Gift Card', '', ' ']
 
 
@@ -783,8 +785,9 @@ def bool_atom(draw, depth, loopvar, fields):
         kind = draw(st.sampled_from(['anygen', 'allgen']))
         return [kind, draw(bool_expr(depth - 1, v, fields)), v, src, draw(st.one_of(st.none(), bool_expr(depth - 1, v, fields)))]
     if c == 12 and fields:
-        return ['cmp', ['field', draw(st.sampled_from(FIELD_KEYS))], [[draw(st.sampled_from(['==', '!='])), ['str', draw(st.sampled_from(FIELD_VALUES + ['wire', 'WIRE']))]]]]
-    return ['cmp', ['name', draw(spell('source'))], [['==', ['str', draw(st.sampled_from(SOURCES + ['amex', 'CHASE']))]]]]
+        return ['cmp', ['field', draw(st.sampled_from(FIELD_KEYS))], [[draw(st.sampled_from(['==', '!='])), ['str', draw(st.sampled_from(FIELD_VALUES + CASE_VARIANTS_F))]]]]
+    # == and != between strings ignore letter case alike: the literal is often the transaction's own source in another letter case
+    return ['cmp', ['name', draw(spell('source'))], [[draw(st.sampled_from(['==', '==', '!=', '!='])), ['str', draw(st.sampled_from(SOURCES + CASE_VARIANTS_S))]]]]
 
 
 @st.composite
